@@ -43,6 +43,10 @@ structure ONet where
   tainted : Bool := false
   /-- token wrap-arounds (a token transmitted with DA ≤ SA) on the bus since the last change of the population / last fault -/
   wraps : Nat := 0
+  /-- no telegram was corrupted or dropped in this case so far (only clean crashes / restarts) -/
+  crashOnly : Bool := true
+  /-- token wrap-arounds since every online station has been a ring member (reset whenever one is not) -/
+  wrapsAllIn : Nat := 0
 
 def bitsT (o : ONet) (b : Nat) : Int := (bitsToTime o.rate b : Nat)
 
@@ -87,13 +91,13 @@ def oracleNet (want : String) (o : ONet) (op obs : String) : ONet × Option (Str
   | ["net.online", i, now] =>
     let i := i.toNat!
     let f : NStation → NStation := fun s => { s with online := true, inring := false, las := [], fsm := "Offline" }
-    ({ o with sts := o.sts.modify i f, lastChange := now.toInt!, agreed := false, wraps := 0 }, none)
+    ({ o with sts := o.sts.modify i f, lastChange := now.toInt!, agreed := false, wraps := 0, wrapsAllIn := 0 }, none)
   | ["net.offline", i, now] =>
     let i := i.toNat!
     let f : NStation → NStation := fun s => { s with online := false, inring := false }
-    ({ o with sts := o.sts.modify i f, lastChange := now.toInt!, agreed := false, faulty := true, wraps := 0 }, none)
-  | ["net.corrupt", _, z] => ({ o with faulty := true, lastChange := max o.lastChange z.toInt!, agreed := false, wraps := 0 }, none)
-  | ["net.drop", _] => ({ o with faulty := true, lastChange := o.lastTime, agreed := false, wraps := 0 }, none)
+    ({ o with sts := o.sts.modify i f, lastChange := now.toInt!, agreed := false, faulty := true, wraps := 0, wrapsAllIn := 0 }, none)
+  | ["net.corrupt", _, z] => ({ o with crashOnly := false, faulty := true, lastChange := max o.lastChange z.toInt!, agreed := false, wraps := 0 }, none)
+  | ["net.drop", _] => ({ o with crashOnly := false, faulty := true, lastChange := o.lastTime, agreed := false, wraps := 0 }, none)
   | ["net.poll", iS, nowS] =>
     let i := iS.toNat!
     let now := nowS.toInt!
@@ -169,6 +173,10 @@ def oracleNet (want : String) (o : ONet) (op obs : String) : ONet × Option (Str
             some ("C06", s!"ring {S} not re-established within the recovery bound ({convBound o1} us after the last disturbance)")
           else if ¬ o2.agreed ∧ o.wraps > rotBound o1 then
             some ("C06", s!"ring {S} not re-established after {o.wraps} token rotations since the last disturbance (bound {rotBound o1} rotations)")
+          else if ¬ o2.agreed ∧ o.crashOnly ∧ o.wrapsAllIn > 12 then
+            -- after clean crashes only, with every online station a ring member, the views settle within a few rotations:
+            -- the predecessor drops the silent successor after three passes and everybody witnesses the pass that skips it
+            some ("C06", s!"every online station is a ring member but the views still disagree on {S} after {o.wrapsAllIn} token rotations (station #{sNew.addr}: LAS={sNew.las} NS={sNew.ns} PS={sNew.ps})")
           else none
         else none
       -- ------------------------------------------------------------ C13 rotation bound
@@ -187,7 +195,9 @@ def oracleNet (want : String) (o : ONet) (op obs : String) : ONet × Option (Str
       let isWrap : Bool := match r.tx with
         | some b => (match isTokenFrame b with | some (da, sa) => decide (da ≤ sa) && decide (now > o.lastChange) | none => false)
         | none => false
-      let o2 : ONet := { o2 with wraps := if isWrap then o2.wraps + 1 else o2.wraps }
+      let allIn : Bool := (o1.sts.filter (·.online)).all (·.inring)
+      let o2 : ONet := { o2 with wraps := if isWrap then o2.wraps + 1 else o2.wraps,
+                                 wrapsAllIn := if ¬ allIn then 0 else if isWrap then o2.wrapsAllIn + 1 else o2.wrapsAllIn }
       let o3 : ONet := match r.tx with
         | some b => { o2 with lastTxEnd := some (now + ((11 * b.length * 1000000 + o.rate - 1) / o.rate : Nat)), lastTxSender := i,
                               lastTxBytes := b, prevTx := o2.prevTx.set i b, tainted := o2.tainted || isK3 }
